@@ -60,7 +60,8 @@ def install(reg):
             "one_measurement_per_scope": "len(measurements) == i",
             "span_starts_at_the_header": "forall(0, i, lambda k: measurements[k].start is code_tokens[scopes[k].header.token_range.start].location)",
             "name_is_the_header_name": "forall(0, i, lambda k: measurements[k].unit_name == scopes[k].header.name_token.value)",
-            "end_line": "forall(0, i, lambda k: measurements[k].end.line >= code_tokens[scopes[k].block.end - 1].location.line)",
+            "end_line": "forall(0, i, lambda k: measurements[k].end.line == end_line_of(code_tokens[scopes[k].block.end - 1]))",
+            "end_column": "forall(0, i, lambda k: measurements[k].end.column == end_column_of(code_tokens[scopes[k].block.end - 1]))",
         }, body_asserts={
             "length_is_count_lines_of_this_scope": "iter_call_count('count_lines') == 1",
         })},
@@ -76,6 +77,9 @@ def install(reg):
             "span_starts_at_the_header": "forall(0, len(result), lambda k: result[k].start is "
                                          "call_result('filter_tokens')[call_result('unfold_scopes')[k].header.token_range.start].location)",
             "name_is_the_header_name": "forall(0, len(result), lambda k: result[k].unit_name == call_result('unfold_scopes')[k].header.name_token.value)",
+            "span_ends_just_past_the_last_token_of_the_block": "forall(0, len(result), lambda k: "
+                "result[k].end.line == end_line_of(call_result('filter_tokens')[call_result('unfold_scopes')[k].block.end - 1]) and "
+                "result[k].end.column == end_column_of(call_result('filter_tokens')[call_result('unfold_scopes')[k].block.end - 1]))",
         },
         raises={"IndexError": None}, callers_assume_no_raise=True,
         note="IndexError is excluded by the range invariant of build_scopes, which is only checked by the bounded stand-ins of C03/C05",
